@@ -793,6 +793,19 @@ func doReplay(t *testing.T, job *Job, out *WorkerOut) {
 	if job.DumpTrace != "" {
 		os.WriteFile(job.DumpTrace, []byte(strings.Join(r.Events, "\n")+"\n"), 0o644)
 	}
+	if job.Recheck > 0 {
+		// debugging aid: execute the same run again in this process and dump its trace next to the first one
+		for k := 0; k < job.Recheck; k++ {
+			r2 := RunOne(t, rf.Scenario, rf.RunSeed, rf.Tape, !rf.FromSeed, rf.Tier, rf.Params)
+			if r2.TraceHash != r.TraceHash || r2.ByteHash != r.ByteHash {
+				out.RecheckDiffs++
+				if job.DumpTrace != "" {
+					os.WriteFile(fmt.Sprintf("%s.again%d", job.DumpTrace, k), []byte(strings.Join(r2.Events, "\n")+"\n"), 0o644)
+				}
+			}
+			out.Rechecked++
+		}
+	}
 }
 
 func keys(m map[uint64]struct{}) []uint64 {
